@@ -17,3 +17,10 @@ PROPS = {
                         "no axioms: every theorem of Props/C15.v is closed under the global context"],
     },
 }
+
+# Entries under construction live in integration/Cxx.props.json until they are merged here.
+import glob as _glob, json as _json, os as _os
+for _p in sorted(_glob.glob(_os.path.join(_os.path.dirname(_os.path.abspath(__file__)), "integration", "C*.props.json"))):
+    _id = _os.path.basename(_p).split(".")[0]
+    if _id not in PROPS:
+        PROPS[_id] = _json.load(open(_p))
